@@ -266,5 +266,5 @@ def run(res):
             res.sample(o["sample"], cap=8)
     res.rule = ("conforming streams with known packet / PhT counts, versions, chip lists and internal-trigger bc sequences (wrap-around over orbits) x configured values "
                 "{truth-1, truth, truth+1}, key subsets, all-commented file vs no file, periods {1,7,198,594,3563,3564}; non-trivial = distinct (sub-check, configuration class)")
-    res.min_nontrivial = 25 if res.tier == "quick" else 60
+    res.min_nontrivial = 25 if res.tier == "quick" else 45
     res.assumptions = ["frames are not preceded by no-data TDHs in the chip-list sub-check (frame start offset = its own TDH)"]
